@@ -9,13 +9,16 @@ package main
 //     points and moduli.
 
 import (
+	"bytes"
 	"fmt"
 	"os"
 	"path/filepath"
 	"sync"
 	"time"
 
+	"github.com/cronokirby/saferith"
 	"github.com/fxamacker/cbor/v2"
+	"github.com/taurusgroup/multi-party-sig/pkg/hash"
 	"github.com/taurusgroup/multi-party-sig/protocols/cmp"
 
 	"github.com/taurusgroup/multi-party-sig/internal/zzverif/kmat"
@@ -114,6 +117,7 @@ func raceReal(res *vkit.Result) {
 			concurrently(res, what, 1, func(int) *sess.Spec { return mk(r) }, budget)
 		}
 	}
+	sharedPointBody(res)
 	msg := func(i int) []byte { return []byte(fmt.Sprintf("message-%02d-0123456789abcdef0123456", i)) }
 	sess.PoolWorkers = 4
 	defer func() { sess.PoolWorkers = 0 }()
@@ -186,4 +190,50 @@ func loadCMPKeys() (map[party.ID]*cmp.Config, error) {
 		out[party.ID(id)] = c
 	}
 	return out, nil
+}
+
+// sharedPointBody distils what the pool fan-out of a CMP round does: several workers hash and encode
+// the SAME public point (still in projective form, as computed) at the same time.  Marshalling must
+// work on a copy: the encodings must all equal the one taken beforehand, and the race detector
+// must stay silent.  Only MarshalBinary / transcript hashing / CBOR encoding are exercised.
+func sharedPointBody(res *vkit.Result) {
+	g := sess.Group
+	for rep := 0; rep < 50; rep++ {
+		k := g.NewScalar().SetNat(new(saferith.Nat).SetUint64(uint64(rep) + 2))
+		pt := k.ActOnBase().Add(g.NewBasePoint()) // computed, not decoded: Z != 1
+		want, err := k.ActOnBase().Add(g.NewBasePoint()).MarshalBinary()
+		if err != nil {
+			res.Hard(err.Error())
+			return
+		}
+		var wg sync.WaitGroup
+		bad := make([]string, 4)
+		for w := 0; w < 4; w++ {
+			w := w
+			wg.Add(1)
+			go func() {
+				defer wg.Done()
+				for i := 0; i < 20; i++ {
+					b, err := pt.MarshalBinary()
+					if err != nil || !bytes.Equal(b, want) {
+						bad[w] = fmt.Sprintf("MarshalBinary gave %x (%v), expected %x", b, err, want)
+					}
+					h := hash.New()
+					_ = h.WriteAny(pt)
+					_ = h.Sum()
+					if c, err := cbor.Marshal(pt); err != nil || !bytes.Contains(c, want) {
+						bad[w] = fmt.Sprintf("cbor encoding %x does not contain %x", c, want)
+					}
+				}
+			}()
+		}
+		wg.Wait()
+		for _, b := range bad {
+			if b != "" {
+				res.Violate("shared-point|wrong-encoding-under-concurrent-marshalling", "four goroutines marshalling one computed point at the same time: "+b, map[string]interface{}{"race_body": "shared-point"})
+				return
+			}
+		}
+		res.Case("")
+	}
 }
